@@ -175,6 +175,8 @@ prop('C12', units=['ls'], level='proof', relevant=r'^unit::vfs::',
                   'the call of Vfs::set_open_document in Server::set_file_content is NOT covered by a contract (see explanation); Server::set_file_content itself is verified for absence of panics only, under "the lock is not poisoned"'])
 
 prop('C13', units=['dg'], level='proof',
+     bounded=[dict(test='c13_faults', covers='the semantic half of C13 (type checker spread over check_template_args, FieldDef/FieldLet, can_be_casted_to, bang_operator.rs): a whole-program judgement outside function contracts',
+                   bound='a fixed corpus written from the property statement: 2 well-formed programs (one with an include) must be diagnostic-free; 12 single-fault programs (undefined class / multiclass / identifier / include, missing and surplus template argument, type-incompatible argument / initialiser / override, wrong operator arity, syntax error) and 1 fault in an included file must be diagnosed at the seeded site, in the seeded file only')],
      explanation=('Unit DG (the merge step only): Verus proves on the real text of ide::handlers::diagnostics::exec that the per-file map of diagnostics contains, for EVERY file of the workspace '
                   '(root or included), every syntax error of that file\'s parse, filed under that file with the error\'s range; every diagnostic of the indexer, filed under the file it lies in; '
                   'an entry (possibly empty) for every workspace file; and that every stored diagnostic sits under its own file (the grouping unit LS assumes when it converts them). The closure '
@@ -203,6 +205,8 @@ prop('C17', units=['syn', 'dg', 'idx', 'ut'], level='proof',
                   'rowan computes node and token ranges from the lengths of the token texts it was given (not re-verified)'])
 
 prop('C18', units=['fr', 'ut'], level='proof',
+     bounded=[dict(test='c18_symbols', covers='the document-symbol half of C18 (symbol_to_document_symbol / per-file symbol lists: iterator chains over the symbol map, outside the contracts)',
+                   bound='a fixed corpus written from the property statement: 3 workspaces (template arguments and fields as children, overridden field, defset with its defs as children, redeclared name, a file and its include) whose outlines - kinds, names, text at the ranges, order, nesting - are compared with the expected ones')],
      explanation=('Partial: the folding-range half. Unit FR moves the filter closure of ide::handlers::folding_range::exec into a function and proves that it answers Some exactly for class, def, defset, '
                   'foreach, if, let and multiclass statement nodes (the list of the property) and that the range is [first token of the statement, end of its last non-trivia token] - the latter through '
                   'the contract of utils::range_excluding_trivia, which unit UT proves on the real code over an assumed model of rowan\'s token sequence. One range per such descendant, in document '
